@@ -277,6 +277,73 @@ func c12(x *mon.Ctx) {
 	})
 	x.Require("two-root-history", 24, 24, 48)
 
+	// ---- (b3) the same call repeated: the verdict is a function of the quote, the settings and the fetched data, so repeating a
+	//      call on identical inputs gives identical verdicts. The inputs here are ambiguous on purpose (several spellings of a
+	//      response-header name with different values, with and without the canonical spelling): whatever the library makes of
+	//      an ambiguity, it has to make the same of it every time (Go map iteration order, goroutine scheduling and the like
+	//      are not inputs).
+	{
+		r := x.Rand("repeat")
+		w := richHonest(r)
+		other := world.NewPKI(world.Far, world.SgxExtension(w.P))
+		fill := func(h map[string][]string) map[string][]string {
+			for _, k := range []string{"Content-Type", "Request-ID", "Date", "Content-Length", "Warning", "X-Cache", "Via", "Strict-Transport-Security"} {
+				h[k] = []string{"x"}
+			}
+			return h
+		}
+		spell := func(name string) []string {
+			return []string{strings.ToUpper(name), strings.ToLower(name), strings.Replace(name, "-I", "-i", 1), strings.ToUpper(name[:3]) + name[3:]}
+		}
+		var reps []*world.Case
+		for di, d := range []struct {
+			name, hdr  string
+			good, evil string
+			set        func(w *world.World, h map[string][]string)
+			lvl        int
+		}{
+			{"tcbinfo", world.HdrTcbInfo, world.IssuerChain(w.PKI.TcbSign, w.PKI.Root), world.IssuerChain(other.TcbSign, other.Root), func(w *world.World, h map[string][]string) { w.TcbHdr = h }, world.LColl},
+			{"qeidentity", world.HdrQeID, world.IssuerChain(w.PKI.TcbSign, w.PKI.Root), world.IssuerChain(other.TcbSign, other.Root), func(w *world.World, h map[string][]string) { w.QeHdr = h }, world.LColl},
+			{"pckcrl", world.HdrPckCrl, world.IssuerChain(w.PKI.Inter, w.PKI.Root), world.IssuerChain(other.Inter, other.Root), func(w *world.World, h map[string][]string) { w.CrlHdr = h }, world.LCrl},
+		} {
+			sp := spell(d.hdr)
+			for a := 0; a < len(sp); a++ {
+				for b := 0; b < len(sp); b++ {
+					if a == b || sp[a] == d.hdr || sp[b] == d.hdr || ((a*len(sp)+b+di)%3 != 0 && x.Quick()) {
+						continue
+					}
+					for _, canon := range []bool{false, true} {
+						h := fill(map[string][]string{sp[a]: {d.good}, sp[b]: {d.evil}})
+						if canon {
+							h[d.hdr] = []string{d.good}
+						}
+						w2 := w.Clone()
+						d.set(w2, h)
+						reps = append(reps, w2.Case(d.lvl, "repeated-call", fmt.Sprintf("%s/%s=good,%s=other-pki,canonical=%v", d.name, sp[a], sp[b], canon)))
+					}
+				}
+			}
+		}
+		x.Each(len(reps), func(i int) {
+			c := reps[i]
+			x.Crumb(i, "verify", c)
+			first := mon.RunVerify(c)
+			shared := &verify.Options{}
+			for k := 0; k < 40; k++ {
+				out := mon.RunVerify(c)
+				if k%2 == 1 {
+					out = mon.RunVerifyShared(c, shared)
+				}
+				if out.Panic != "" || out.Accepted != first.Accepted {
+					x.Violation(c.Class, c.Param, fmt.Sprintf("the same quote, settings and fetched data gave accepted=%v (%s) at the first call and accepted=%v (%s) at repetition %d: the verdict depends on something that is not an input", first.Accepted, first.Err, out.Accepted, out.Err+out.Panic, k+1), "verify", c)
+					break
+				}
+			}
+			x.Note(c.Class, c.Param, first.Accepted, first.Panic != "", true)
+		})
+		x.Require("repeated-call", 4, 4, 16)
+	}
+
 	// ---- (c) histories through one shared Options value
 	nh := x.Pick(200, 5000)
 	x.Each(nh, func(i int) {
